@@ -219,3 +219,23 @@ fix_alias_selected_bad (mpz_ptr z, mpir_ui l, mpz_srcptr w)
   else
     mpz_set_ui (z, 0);
 }
+
+/* negative: in place, but the two ranges cannot meet - the upper half of the block is moved onto the lower half */
+void
+fix_copy_halves (mpz_ptr w, mpz_srcptr u, mp_size_t n)
+{
+  mp_ptr wp = MPZ_REALLOC (w, 2 * n);
+  mp_srcptr up = PTR (u);
+  MPN_COPY (wp, up + n, n);
+  SIZ (w) = n;
+}
+
+/* positive twin: distance 1, length n - the in-place call trips MPN_COPY's assertion */
+void
+fix_copy_shift_one (mpz_ptr w, mpz_srcptr u, mp_size_t n)
+{
+  mp_ptr wp = MPZ_REALLOC (w, n + 1);
+  mp_srcptr up = PTR (u);
+  MPN_COPY (wp, up + 1, n);
+  SIZ (w) = n;
+}
